@@ -29,7 +29,7 @@ RULE = (
 ASSUMPTIONS = ["the 'shutdown' request is a feature of the protocol, not abuse, and is not sent", "fake processes in the virtual lane"]
 
 
-QUICK_BUDGET = {"cases": 16000, "deadline_s": 170, "case_timeout_s": 120, "floors": {"accepted_tasks": 33236, "abusive_lines": 60000, "healthy_responses": 34884, "liveness_probes": 5600, "real_tasks": 20, "state_replies_checked": 15000}}
+QUICK_BUDGET = {"cases": 16000, "deadline_s": 170, "case_timeout_s": 120, "floors": {"accepted_tasks": 33236, "abusive_lines": 60000, "healthy_responses": 34884, "liveness_probes": 5600, "real_tasks": 20, "state_replies_checked": 15000, "identical_submissions": 20}}
 THOROUGH_FACTOR = 12  # thorough = the same workload with 12x the cases (floors scale along)
 
 
@@ -396,6 +396,45 @@ def run_real(case):
                     res.violation("duplicate-id", "fresh client got an id already in use: %s" % t_new)
             except Exception as e:  # noqa: BLE001
                 res.violation("server-dead", "fresh client could not enqueue: %r" % (e,))
+            # two clients submit the very same task (same name, script, directory, limit, dependencies) while the first
+            # one is still active: two accepted tasks, two ids, both run
+            try:
+                same = "sleep 1; echo run >> same.txt"
+                ia = pool.raw_enqueue("same", same, proj.root)
+                ib = pool.raw_enqueue("same", same, proj.root)
+                res.mon("identical_submissions")
+                if ia == ib:
+                    res.violation("duplicate-id", "two identical submissions from two clients were given the same id %s" % ia)
+                else:
+                    pool.wait_states(lambda s_: s_.get(ia) == "COMPLETED" and s_.get(ib) == "COMPLETED", timeout=30)
+                    try:
+                        lines_ = open(os.path.join(proj.root, "same.txt")).read().count("run")
+                    except FileNotFoundError:
+                        lines_ = 0
+                    if pool.states().get(ia) != "COMPLETED" or pool.states().get(ib) != "COMPLETED" or lines_ != 2:
+                        res.violation("accepted-task-not-final", "two identical submissions: states %s/%s, the script ran %d time(s)" % (pool.states().get(ia), pool.states().get(ib), lines_))
+            except Exception as e:  # noqa: BLE001
+                res.violation("server-dead", "identical submissions: %r" % (e,))
+        # ---- arbitrary numbers of tasks: far more waiting tasks than the pool process may hold file descriptors
+        if case["seed"] % 2 == 0:
+            with gen.Project() as proj2:
+              proj2.write_workflow("from gwf import Workflow\ngwf = Workflow()\n")
+              with realpool.Pool(proj2, ncores=2, nofile=64) as pool2:
+                blockers = [pool2.raw_enqueue("blocker%d" % i, "sleep 2", proj2.root) for i in range(2)]
+                many = []
+                c2 = pool2.client()
+                for i in range(150):
+                    c2.send("enqueue_task", name="q%d" % i, script="true", working_dir=proj2.root, time_limit=None, deps=[])
+                    many.append(c2.recv()["tid"])
+                c2.close()
+                pool2.wait_states(lambda s_: all(s_.get(t_) in ("COMPLETED", "FAILED", "CANCELLED", "KILLED") for t_ in many + blockers), timeout=90)
+                st2 = pool2.states()
+                res.mon("waiting_tasks_under_fd_limit", len(many))
+                notdone = [t_ for t_ in many + blockers if st2.get(t_) != "COMPLETED"]
+                if not pool2.alive():
+                    res.violation("server-dead", "pool with 64 file descriptors died with 150 waiting tasks: %s" % pool2.read_log()[-400:])
+                elif notdone:
+                    res.violation("accepted-task-not-final", "pool with 64 file descriptors, 2 cores, 150 waiting `true` tasks: %d did not end COMPLETED (e.g. %s)" % (len(notdone), {t_: st2.get(t_) for t_ in notdone[:4]}))
         res.sig = ("real", n, case["seed"] % 5)
         res.nontrivial = abuse_count[0] > 0
     return res
